@@ -712,3 +712,216 @@ func findFuncDecl(pkg *packages.Package, fn *types.Func) *ast.FuncDecl {
 	}
 	return nil
 }
+
+// ---------------------------------------------------------------------------
+// R15.7 string literals and quoted identifiers are read as written
+
+// ruleR157: the typographic aliases are implemented by overwriting the rune
+// cache (a switch over a Tokenizer field whose cases assign constants to that
+// field). Every Tokenizer method that returns such a field - directly or via
+// another such method - delivers aliased runes. The readers of string
+// literals and of quoted identifiers must build their text from methods that
+// do not: otherwise "a×b" denotes a*b.
+func ruleR157(c *Ctx) {
+	ta := c.tokAnchors()
+	root := c.Pkg("")
+	if len(ta.missing) > 0 || root == nil {
+		c.Undecided(strings.Join(ta.missing, ","), token.NoPos, "anchors not found")
+		return
+	}
+	info := ta.info
+	// 1. aliased fields
+	aliased := map[types.Object]bool{}
+	var methods []*ast.FuncDecl
+	for _, f := range root.Syntax {
+		for _, d := range f.Decls {
+			fd, ok := d.(*ast.FuncDecl)
+			if !ok || fd.Body == nil || fd.Recv == nil || recvTypeName(fd.Recv.List[0].Type) != "Tokenizer" {
+				continue
+			}
+			methods = append(methods, fd)
+			ast.Inspect(fd.Body, func(x ast.Node) bool {
+				sw, ok := x.(*ast.SwitchStmt)
+				if !ok || sw.Tag == nil {
+					return true
+				}
+				tagSel, ok := ast.Unparen(sw.Tag).(*ast.SelectorExpr)
+				if !ok {
+					return true
+				}
+				tsel, ok := info.Selections[tagSel]
+				if !ok || tsel.Kind() != types.FieldVal {
+					return true
+				}
+				for _, cl := range sw.Body.List {
+					for _, s := range cl.(*ast.CaseClause).Body {
+						if as, ok := s.(*ast.AssignStmt); ok && len(as.Lhs) == 1 && len(as.Rhs) == 1 {
+							if l, ok := ast.Unparen(as.Lhs[0]).(*ast.SelectorExpr); ok {
+								if ls, ok := info.Selections[l]; ok && ls.Obj() == tsel.Obj() && info.Types[as.Rhs[0]].Value != nil {
+									aliased[tsel.Obj()] = true
+								}
+							}
+						}
+					}
+				}
+				return true
+			})
+		}
+	}
+	// 2. methods that deliver aliased runes
+	aliasedMethod := map[*types.Func]bool{}
+	for changed := true; changed; {
+		changed = false
+		for _, fd := range methods {
+			obj, _ := info.Defs[fd.Name].(*types.Func)
+			if obj == nil || aliasedMethod[obj] {
+				continue
+			}
+			sig := obj.Type().(*types.Signature)
+			if sig.Results().Len() != 1 {
+				continue
+			}
+			if bt, ok := sig.Results().At(0).Type().Underlying().(*types.Basic); !ok || bt.Kind() != types.Int32 {
+				continue
+			}
+			var isAliasedExpr func(e ast.Expr, depth int) bool
+			isAliasedExpr = func(e ast.Expr, depth int) bool {
+				e = ast.Unparen(e)
+				switch t := e.(type) {
+				case *ast.SelectorExpr:
+					if s, ok := info.Selections[t]; ok && s.Kind() == types.FieldVal {
+						return aliased[s.Obj()]
+					}
+				case *ast.CallExpr:
+					if cal := Callee(info, t); cal != nil {
+						return aliasedMethod[cal]
+					}
+				case *ast.Ident:
+					if depth < 2 {
+						if as, i := definingAssign(info, fd, info.ObjectOf(t)); as != nil && len(as.Lhs) == len(as.Rhs) {
+							return isAliasedExpr(as.Rhs[i], depth+1)
+						}
+					}
+				}
+				return false
+			}
+			inspectNoLit(fd.Body, func(x ast.Node) bool {
+				if r, ok := x.(*ast.ReturnStmt); ok && len(r.Results) == 1 && isAliasedExpr(r.Results[0], 0) {
+					if !aliasedMethod[obj] {
+						aliasedMethod[obj] = true
+						changed = true
+					}
+				}
+				return true
+			})
+		}
+	}
+	// 3. the readers of literals
+	checkReader := func(key string, fd *ast.FuncDecl, depth int) {
+		var bad []string
+		n := 0
+		var visit func(fd *ast.FuncDecl, depth int)
+		visit = func(fd *ast.FuncDecl, depth int) {
+			ast.Inspect(fd.Body, func(x ast.Node) bool {
+				call, ok := x.(*ast.CallExpr)
+				if !ok {
+					return true
+				}
+				sel, ok := ast.Unparen(call.Fun).(*ast.SelectorExpr)
+				if !ok {
+					return true
+				}
+				if sel.Sel.Name == "WriteRune" && len(call.Args) == 1 {
+					arg := ast.Unparen(call.Args[0])
+					if info.Types[arg].Value != nil {
+						return true
+					}
+					n++
+					src := arg
+					if id, ok := arg.(*ast.Ident); ok {
+						if as, i := definingAssign(info, fd, info.ObjectOf(id)); as != nil && len(as.Lhs) == len(as.Rhs) {
+							src = ast.Unparen(as.Rhs[i])
+						}
+					}
+					if sc, ok := src.(*ast.CallExpr); ok {
+						if cal := Callee(info, sc); cal != nil && aliasedMethod[cal] {
+							bad = append(bad, fmt.Sprintf("%s writes the rune delivered by %s, which replaces the typographic aliases", declName(root, fd), cal.Name()))
+						}
+					}
+					return true
+				}
+				// delegation to another reader of the tokenizer that returns the text
+				if cal := Callee(info, call); cal != nil && depth < 2 {
+					if sig := cal.Type().(*types.Signature); sig.Recv() != nil && sig.Results().Len() == 1 {
+						if bt, ok := sig.Results().At(0).Type().Underlying().(*types.Basic); ok && bt.Info()&types.IsString != 0 {
+							if d := findFuncDecl(root, cal); d != nil && d.Body != nil && d != fd && recvTypeName(d.Recv.List[0].Type) == "Tokenizer" {
+								visit(d, depth+1)
+							}
+						}
+					}
+				}
+				return true
+			})
+		}
+		visit(fd, depth)
+		switch {
+		case len(bad) > 0:
+			c.Violation(key, fd.Pos(), "%s: a literal containing • × ÷ – ˆ does not denote its exact content", strings.Join(bad, "; "))
+		case n == 0:
+			c.Undecided(key, fd.Pos(), "no rune is written by this reader")
+		default:
+			c.OK(key, fd.Pos(), "the text is built from runes as written (aliased readers: %d, none used here)", len(aliasedMethod))
+		}
+	}
+	if fd := c.FuncDecl(root, "Tokenizer", "readStr"); fd != nil {
+		checkReader("parser2.Tokenizer.readStr#runes-as-written", fd, 0)
+	} else {
+		c.Undecided("parser2.Tokenizer.readStr#runes-as-written", token.NoPos, "readStr not found")
+	}
+	// quoted identifier: the case clause for the quote character in run
+	found := false
+	ast.Inspect(ta.run.Body, func(x ast.Node) bool {
+		cc, ok := x.(*ast.CaseClause)
+		if !ok {
+			return true
+		}
+		for _, e := range cc.List {
+			if tv := info.Types[e]; tv.Value != nil && tv.Value.Kind() == constant.Int && tv.Value.ExactString() == "39" {
+				found = true
+				key := "parser2.Tokenizer.run#quoted-identifier-runes-as-written"
+				n := 0
+				for _, s := range cc.Body {
+					ast.Inspect(s, func(y ast.Node) bool {
+						call, ok := y.(*ast.CallExpr)
+						if !ok || n > 0 {
+							return true
+						}
+						cal := Callee(info, call)
+						if cal == nil {
+							return true
+						}
+						sig := cal.Type().(*types.Signature)
+						if sig.Recv() == nil || sig.Results().Len() != 1 {
+							return true
+						}
+						if bt, ok := sig.Results().At(0).Type().Underlying().(*types.Basic); !ok || bt.Info()&types.IsString == 0 {
+							return true
+						}
+						if d := findFuncDecl(root, cal); d != nil && d.Body != nil {
+							n++
+							checkReader(key, d, 0)
+						}
+						return true
+					})
+				}
+				if n == 0 {
+					c.Undecided(key, cc.Pos(), "the reader of the quoted identifier was not found")
+				}
+			}
+		}
+		return true
+	})
+	if !found {
+		c.Undecided("parser2.Tokenizer.run#quoted-identifier-runes-as-written", ta.run.Pos(), "case for the quote character not found")
+	}
+}
